@@ -1040,7 +1040,7 @@ def ops_programs(tier, opts):
                 continue
             data = [False] + [not nf[c] for c in range(1, n + 1)]
             for c in range(1, n + 1):
-                for m in (1, 2):
+                for m in ((1, 2) if n <= 3 else (1,)):
                     mix = [0] * (n + 1)
                     mix[c] = m
                     for seed in ("eager", "lazy"):
@@ -1063,7 +1063,7 @@ def depth_for(spec, tier, opts):
     owners = sum(1 for x in spec.nf if x)
     extra = sum(1 for x in spec.nf if x == 2) + sum(spec.sub)
     if any(spec.mix):
-        return 2 if tier == "quick" else 3
+        return 2 if (tier == "quick" or n == 4) else 3
     if tier == "quick":
         return 2 if (n == 4 and owners >= 3) else 3
     return 4 if (owners + extra <= 1 or n <= 2) else 3
@@ -1240,7 +1240,8 @@ def run(ctx):
         bounds=dict(tree_nodes_below_Renderable="1..4, every shape, up to isomorphism",
                     plain_mixin="one class of the tree with a non-render mixin first / last in its bases: structure "
                                 "part every tree x args owner subset x position; operator search "
-                                + ("<= 3 classes, depth 2" if tier == "quick" else "<= 4 classes, depth 3"),
+                                + ("<= 3 classes, depth 2" if tier == "quick"
+                                   else "<= 3 classes depth 3; 4 classes, mixin first, depth 2"),
                     args_owner_subsets="all",
                     variants="one owner with 2 fields; one owner with a namespace subclass (thorough: every position "
                              "of that owner, except 4-class programs with >= 3 owners: first / last owner)",
